@@ -134,6 +134,7 @@ type Cluster struct {
 	Snappy             bool
 	Fragment           bool // fragment TCP writes randomly
 	StrictUUID         bool
+	DiskMarkers        bool // snapshot markers announce on-disk (backfill) snapshots instead of memory snapshots
 	NoSelectBucket     bool
 
 	Hook     func(*Req) *Action
@@ -1239,7 +1240,11 @@ func (s *dcpStream) push(cl *Cluster, vb *VB) {
 	for _, it := range batch {
 		if !s.haveSn || it.SnapS != s.lastSnS || it.SnapE != s.lastSnE {
 			ex := append(u64(it.SnapS), u64(it.SnapE)...)
-			ex = append(ex, u32(1)...)
+			fl := uint32(1) // memory snapshot
+			if s.c.n.cl.DiskMarkers {
+				fl = 2 | 4 // on-disk snapshot with a checkpoint flag, as a backfill from the data files is announced
+			}
+			ex = append(ex, u32(fl)...)
 			s.c.send(&pkt{magic: 0x80, op: OpDcpSnapshot, vb: s.vb, opaque: s.opaque, extras: ex},
 				evlog.Rec{K: "sim.tx.marker", VB: int(s.vb), A: it.SnapS, B: it.SnapE})
 			s.lastSnS, s.lastSnE, s.haveSn = it.SnapS, it.SnapE, true
